@@ -14,9 +14,12 @@
 //!       -> p1=<points() of (a,b,c)> p2=<points() of (a,c,d)>   (pts_digest format)
 //!
 //! Oracle. Exact integer geometry (i64), written independently of the library; `cross(a,b,p) =
-//! (b-a) x (p-a)`. Lean statements mirrored: C19 `triangle_points_order_independent`,
-//! `shared_edge_same_pixels`, `InteriorCovered`, `CoveredWithinOnePixel`, `OutlineIsEdgeLines`;
-//! C05 `PointsEqFilterContains`, `contains_in_bbox`.
+//! (b-a) x (p-a)`. Lean statements mirrored (all theorems of lean/EG/Props/C19/Triangle.lean and
+//! lean/EG/Props/C05/Triangle.lean): C19 `interior_covered` (with `StrictlyInside`),
+//! `covered_within_one_pixel` (with `ClosedInside`, `NearSegment`), `triangle_points_order_independent`,
+//! `triangle_points_row_major`, `shared_edge_pixels_in_both`, `mesh_gap_free` (with `OnOpenSegment`),
+//! `outline_is_edge_lines`; C05 `triangle_points_eq_filter_contains`, `triangle_points_in_bbox`,
+//! `triangle_contains_false_outside_bbox`.
 //!   C19:tri-interior      every integer point strictly inside the mathematical triangle (all three
 //!                         cross products non-zero and of the same sign) is in points()
 //!   C19:tri-outside-1px   every point of points() is inside the closed triangle (cross products all
